@@ -234,3 +234,27 @@ Theorem C14_count_transitions_exact : forall lines,
   count_transitions (join_nl lines) = length (filter has_arrow lines).
 Proof. exact count_transitions_exact. Qed.
 Print Assumptions C14_count_transitions_exact.
+
+(* ---- which lines become rows ---- *)
+From Msm Require Import Lemmas_PumlTable.
+
+(* create_transition_table builds count_transitions - count_inits - count_terminates rows: that is exactly the number
+   of transition lines of the description (lines with an arrow and without "[*]"), for every description whose lines
+   carry at most one arrow and one "[*]" each and whose first line carries no "[*]" (@startuml) ... *)
+Theorem C14_table_rows_are_the_transition_lines : forall l0 rest,
+  idxp c_initstar l0 = None -> Forall line_ok (l0 :: rest) -> Forall single_star (l0 :: rest) -> Forall one_arrow (l0 :: rest) ->
+  size (join_nl (l0 :: rest)) < npos ->
+  (count_transitions (join_nl (l0 :: rest)) - count_inits (join_nl (l0 :: rest)) - count_terminates (join_nl (l0 :: rest)))%nat
+  = length (filter is_transb (l0 :: rest)).
+Proof. exact table_rows_are_the_transition_lines. Qed.
+Print Assumptions C14_table_rows_are_the_transition_lines.
+
+(* ... and every row index below that number is fetched by parse_stt as the corresponding transition line: no line of the
+   description is lost, none becomes a row twice, initial / terminate / entry / exit / flag lines never become rows *)
+Theorem C14_every_table_row : forall l0 rest t,
+  idxp c_initstar l0 = None -> Forall line_ok (l0 :: rest) -> Forall single_star (l0 :: rest) -> Forall one_arrow (l0 :: rest) ->
+  size (join_nl (l0 :: rest)) < npos ->
+  (t < count_transitions (join_nl (l0 :: rest)) - count_inits (join_nl (l0 :: rest)) - count_terminates (join_nl (l0 :: rest)))%nat ->
+  exists row, nth_error (filter is_transb (l0 :: rest)) t = Some row /\ parse_stt t (join_nl (l0 :: rest)) = parse_row row.
+Proof. exact every_table_row. Qed.
+Print Assumptions C14_every_table_row.
